@@ -37,6 +37,9 @@ class KeyCalc(object):
                     # https://www.h-schmidt.net/FloatConverter/IEEE754.html
                     raw = not formatters or formatters[i] == '{' + key + '}'
                     if raw and isinstance(value, (int, float, decimal.Decimal)):
+                        if value != value:
+                            # NaN (also as a Decimal, which cannot be compared): after every number
+                            value = float('nan')
                         if value == 0:
                             # -0.0 and 0.0 are the same key
                             value = 0
